@@ -13,7 +13,8 @@ CLAIM = (
     "is the default repr with its address is interpolated into a message or into generated code; (5) no function reads or lists the "
     "output directory (only existence tests and mkdir), so pre-existing files cannot influence the output; (6) the anchored orderings "
     "exist: sorted definition names in jsonschema.generate, _sort_by_tags_and_names_in_place applied in xsd, sorted containers in "
-    "_topologically_sort."
+    "_topologically_sort; (7) a run on the cached model sees the same object graph as the run that wrote the cache: the id-sets dropped by "
+    "__getstate__ are recomputed by __setstate__ from the same lists."
 )
 NOTE = (
     "Trusted base: the annotation-driven typer decides what is a set (an untyped set is invisible; counted as unresolved); the table of "
@@ -38,6 +39,9 @@ def run(ctx) -> None:
     ctx.rule("DET-OUT", "the output directory is never read or listed", floor=10)
     ctx.rule("DET-ANCHOR", "anchored orderings: sorted definitions (jsonschema), sorted children (xsd), sorted containers (topological sort)", floor=3)
     ctx.rule("DET-POS", "positive controls: the rules fire on a fixture with one instance of each pattern", floor=4)
+    ctx.rule("PICKLE", "a model restored from the cache equals the fresh one: __getstate__ pops exactly what __setstate__ recomputes, from the same sources (shared with C23)", floor=5)
+    from . import c23
+    c23._check_pickle_agreement(ctx)
     addr = det.address_bearing_classes(ctx)
     ctx.extra["address_bearing_classes"] = len(addr)
     for f in p.all_functions():
